@@ -1,9 +1,10 @@
-from contracts import views_cache, views_types, views_nodes, views_static, views_build, detopts, symtab, fixuplinks
+from contracts import views_cache, views_types, views_nodes, views_static, views_build, detopts, symtab, fixuplinks, views_json
 
 def build(tier):
     ts = views_cache.targets(tier) + views_types.targets(tier) + views_nodes.targets(tier) + views_static.targets(tier)
     ts += [t for t in views_build.targets(tier) if t.id == "codec.ErrorInfo"]
     ts += symtab.targets(tier) + symtab.targets_order(tier)
+    ts += views_json.targets(tier)  # the JSON half: serialize / deserialize
     ts += fixuplinks.targets(tier)  # the transient CallableType.definition is re-linked on every loading path
     ts += detopts.set_order_targets()  # equal values give equal bytes, also for the writers not under a codec contract
-    return dict(targets=ts, assumptions=["fixup: the nested accept() calls (TypeFixer, nested nodes) do not assign CallableType.definition of the types handled by visit_func_def / visit_decorator / visit_overloaded_func_def (assumed frame)"], trusted_base=[])
+    return dict(targets=ts, assumptions=["JSON targets: json.dumps / json.loads (orjson) are the identity on JSON values up to tuple -> list; Var: a serialized Var without a type is an inferred one (assumed class invariant, relied on by Var.deserialize through Var.__init__); nodes.get_flags / set_flags are a contract pair (the names whose attribute is true are set to True on the target; the others keep the value the constructor gave them)", "fixup: the nested accept() calls (TypeFixer, nested nodes) do not assign CallableType.definition of the types handled by visit_func_def / visit_decorator / visit_overloaded_func_def (assumed frame)"], trusted_base=[])
